@@ -306,6 +306,13 @@ def check_C13(run):
     nt = lambda c: any('"ev":"Introspect"' in l for l in c) and any('"res":"refused"' in l for l in c)
     replay_validate(run, sel + msel, ["service"], "ServiceTrace", svc_trace_cfg(), "C13 registration histories with client-side introspection",
                     nontrivial=nt, classify=svc_classify("C13"), shards=16)
+    # the built-in interface on the wire: every GetInfo / GetInterfaceDescription scenario of the Conn machine
+    # (parameters absent, null, undecodable, empty name, unknown name, known name; plain / oneway / more; cut and uncut)
+    from props_conn import conn_gen_cfg, conn_trace_cfg, GEN_FILES
+    f1 = run.generate("ConnGen", conn_gen_cfg(1, False), GEN_FILES)["scen_F1.ndjson"]
+    bi = [l for l in f1 if '"G","e","t","I","n","f","o"' in l or '"G","e","t","I","n","t","e","r","f","a","c","e"' in l]
+    replay_validate(run, bi, ["conn"], "ConnTrace", conn_trace_cfg(), "C13 built-in GetInfo / GetInterfaceDescription on the wire (all parameter classes)",
+                    nontrivial=lambda c: any('"ev":"CR"' in l for l in c), shards=8)
     from props_tables import table_replay, TR_CFG, GEN_CFG
     rs = [l for l in run.generate("RealClockGen", GEN_CFG, ["rc_scen.ndjson"])["rc_scen.ndjson"] if '"resolver"' in l]
     table_replay(run, rs, ["realclock"], "RealClock", TR_CFG, "C13 Resolver helpers against a resolver service (GetInfo, Resolve, self, unknown)", shards=1, nontrivial=lambda c: True)
